@@ -18,7 +18,6 @@
 #if defined(GLM_FORCE_INTRINSICS)
 #	include <glm/gtc/type_aligned.hpp>
 #endif
-#include C17_INC
 #include C17_DESC_INC
 
 using vf::u32; using vf::u64;
@@ -78,11 +77,11 @@ template<class Q,class T> static void checkq(vf::Ctx& c,const In& in,const Q& go
 #define C17_STR2(x) #x
 #define C17_STR(x) C17_STR2(x)
 
+#include C17_INC
+
 VF_OP2(C17_OPNAME, In, IN_FMT){
-	switch(in.id){
-		C17_CASES
-		default: c.fail("harness:case-not-in-this-unit","",""); break;
-	}
+	if(in.id>=C17_NCASES || (int)(in.id%C17_NPARTS)!=C17_PART){ c.fail("harness:case-not-in-this-unit","",""); return; }
+	c17_dispatch(in,c);
 }
 
 // tag assignments: 0 primes; 1 alternating sign + fractional part; 2 distinct values drawn from the seed; 3 zero/one pattern from the seed
